@@ -1,6 +1,9 @@
 (* C04 model driver: evaluates the extracted ABFModel at floats on case lines from stdin.
    Case:  ABF nd lower*nd width*nd nx*nd periodic*nd full min update cap maxf*nd szd same sub*nd hidej other*nd scaled sfac*(prod nx)
-              ndata (cnt0*(prod nx) grad0*(prod nx * nd))*ndata nsteps (x*nd e*nd o*nd j*nd boundary apply)*nsteps
+              ndata (cnt0*(prod nx) grad0*(prod nx * nd))*ndata nevents event*nevents
+          event = 0 x*nd e*nd o*nd j*nd boundary apply      (a step)
+                | 1 cnt*(prod nx) grad*(prod nx * nd)       (restart: state file loaded into a new instance)
+                | 2 cnt*(prod nx) grad*(prod nx * nd)       (reload: state file loaded into the running instance)
    Output (one line): per step "bin .. fbin .. cf .. tf .. af .. cnt .. sum .. go .." joined by " ; ",
    then " ; SPEC cnt .. sum .." = the per-bin count and minus the summed forces of the attributed samples
    computed by the specification function [attributed] on the trace. *)
@@ -60,18 +63,23 @@ let () =
                | i :: ir, n :: nr -> let i = int_of_z i in if i < 0 || i >= n then (-1) else (if a < 0 then a else addr (a * n + i) ir nr)
                | _, _ -> a in
              addr 0 ix nx in
-           let datasets = List.init ndata (fun _ ->
+           let read_dataset () =
                let cnt0arr = Array.init nt (fun _ -> ni ()) in
                let grad0arr = Array.init (nt * nd) (fun _ -> nf ()) in
                let cnt0 ix = let a = addr_of ix in if a >= 0 && a < nt then z_of_int cnt0arr.(a) else z_of_int 0 in
                let grad0 ix = let a = addr_of ix in
                  List.init nd (fun k -> if a >= 0 && a < nt then grad0arr.(a * nd + k) else 0.0) in
-               (cnt0, grad0)) in
-           let nsteps = ni () in
-           let steps = List.init nsteps (fun _ ->
-               let x = nflist nd in let e = nflist nd in let o = nflist nd in let j = nflist nd in let b = nb () in
-               let a = nb () in
-               { i_x = x; i_e = e; i_o = o; i_j = j; i_boundary = b; i_apply = a }) in
+               (cnt0, grad0) in
+           let datasets = List.init ndata (fun _ -> read_dataset ()) in
+           let nevents = ni () in
+           let events = List.init nevents (fun _ ->
+               match ni () with
+               | 0 ->
+                 let x = nflist nd in let e = nflist nd in let o = nflist nd in let j = nflist nd in let b = nb () in
+                 let a = nb () in
+                 EvStep { i_x = x; i_e = e; i_o = o; i_j = j; i_boundary = b; i_apply = a }
+               | 1 -> EvRestart (read_dataset ())
+               | _ -> EvReload (read_dataset ())) in
            let ixs = all_indices nx in
            let zs l = String.concat " " (List.map (fun z -> string_of_int (int_of_z z)) l) in
            let fs l = String.concat " " (List.map hex l) in
@@ -86,10 +94,15 @@ let () =
                (String.concat " " (List.map (fun ix ->
                     fs (List.init nd (fun k -> grad_out fops cnt sum (List.map z_of_int ix) (nat_of_int k)))) ixs)) in
            let buf = Buffer.create 4096 in
-           let s0 = abf_init_data fops c datasets in
-           let s = ref s0 in
+           let s0 = ref (abf_init_data fops c datasets) in
+           let s = ref !s0 in
            let outs = ref [] in
-           List.iter (fun i ->
+           let seg = ref [] in
+           List.iter (fun ev -> match ev with
+             | EvRestart _ | EvReload _ ->
+               s := abf_event_apply fops c !s ev; s0 := !s; outs := []; seg := []
+             | EvStep i ->
+               seg := i :: !seg;
                let (s1, o) = abf_step fops c !s i in
                (* The grids of the model are functions idx -> value, each step wrapping the previous one in a
                   closure: evaluate them once on the bins of the grid and continue with table look-ups
@@ -104,9 +117,10 @@ let () =
                s := s1; outs := o :: !outs;
                Buffer.add_string buf (Printf.sprintf "bin %s fbin %s cf %s tf %s af %s %s ; "
                                         (zs s1.s_bin) (zs s1.s_fbin) (fs o.o_fabf) (fs o.o_tf) (fs o.o_f)
-                                        (grid s1.s_cnt s1.s_sum))) steps;
-           (* the specification evaluated on the trace *)
-           let tr = List.combine steps (List.rev !outs) in
+                                        (grid s1.s_cnt s1.s_sum))) events;
+           (* the specification evaluated on the trace since the last state-file event (informational) *)
+           let s0 = !s0 in
+           let tr = List.combine (List.rev !seg) (List.rev !outs) in
            let att = attributed fops c tr in
            let scnt ix = z_of_int (int_of_z (s0.s_cnt ix) + List.length (samples_in ix att)) in
            let ssum ix = List.init nd (fun k ->
